@@ -6,6 +6,6 @@ PROFILE = {'p_write': 0.55, 'writes': {'insert': 2, 'insert_multiple': 1, 'remov
 
 
 def main(tier, seed):
-    return dbtie.db_check("C03", tier, seed, PROFILE, 300, 6000, "Prop_C03",
+    return dbtie.db_check("C03", tier, seed, PROFILE, 400, 6000, "Prop_C03",
                           "user callables and re are an environment the theorems quantify over; the tie instantiates them with the twin table")
 
